@@ -64,6 +64,7 @@ type VC struct {
 	assertAt []int
 	atOverride int
 	entryMark  int
+	assertSymsCache []map[string]bool // symbols of vc.asserts[i] (emission only reads them)
 	defTerm    map[string]string
 	loopAssigned map[*ssa.Alloc]bool
 	snapTypes  map[string]bool // element types whose addresses were stored in pointer variables (see Store)
@@ -154,6 +155,7 @@ func (vc *VC) reset() {
 	vc.defs = nil
 	vc.defTerm = nil
 	vc.asserts = nil
+	vc.assertSymsCache = nil
 	vc.defAt = nil
 	vc.assertAt = nil
 	vc.axiomSet = map[string]bool{}
